@@ -144,6 +144,11 @@ VARIANTS = [
       *replace_expr("EpochType.is_adaptation(epoch.config.type)",
                     "EpochType.is_adaptation(epoch.config.type) and self._history_required_for_tuning"),
       note="kernels are tuned only when some kernel needs the history", expect_rule="C07.R8"),
+    V("c07_engine_shares_manager", "M", E, "Engine.__init__",
+      *replace_stmt("self._epoch_manager = EpochManager(epoch_configs)",
+                    "self._epoch_manager = epoch_configs if isinstance(epoch_configs, EpochManager) "
+                    "else EpochManager(epoch_configs)"),
+      note="an engine may share a manager (pointer, clock) with its builder", expect_rule="C07.R1"),
     # ---- twins
     V("c07_t_seq_tune_comp", "T", Q, "KernelSequence.start_epoch",
       lambda nd: isinstance(nd, ast.Assign) and ast.unparse(nd.targets[0]) == "states",
